@@ -285,9 +285,24 @@ func UnpackPtr(v reflect.Value) reflect.Value {
 // convertTo gives v the Go type typ, with the conversions SetValue applies to struct fields (wire int to any Go
 // integer kind, double to float32, pointer to value and back)
 func convertTo(typ reflect.Type, v reflect.Value) reflect.Value {
+	return convertToSeen(typ, v, nil)
+}
+
+func convertToSeen(typ reflect.Type, v reflect.Value, seen _conversions) reflect.Value {
 	dst := reflect.New(typ).Elem()
-	SetValue(dst, v)
+	setValue(dst, v, seen)
 	return dst
+}
+
+// _conversions remembers, while one decoded value is given its Go type, which decoded maps and lists have already
+// been converted to which type: a map or list that contains itself is converted once (and still contains itself
+// afterwards) instead of without end.
+type _conversions map[_convKey]reflect.Value
+
+type _convKey struct {
+	addr   uintptr
+	length int
+	typ    reflect.Type
 }
 
 //PackPtr pack a Ptr value
@@ -480,6 +495,10 @@ func SetSlice(dest reflect.Value, objects interface{}) error {
 }
 
 func ConvertSliceValueType(destTyp reflect.Type, v reflect.Value) (reflect.Value, error) {
+	return convertSlice(destTyp, v, nil)
+}
+
+func convertSlice(destTyp reflect.Type, v reflect.Value, seen _conversions) (reflect.Value, error) {
 	if destTyp == v.Type() {
 		return v, nil
 	}
@@ -500,7 +519,20 @@ func ConvertSliceValueType(destTyp reflect.Type, v reflect.Value) (reflect.Value
 	elemIntType := IntKind(elemKind)
 	elemUintType := UintKind(elemKind)
 
+	var key _convKey
+	if k == reflect.Slice {
+		key = _convKey{addr: v.Pointer(), length: v.Len(), typ: destTyp}
+		if done, ok := seen[key]; ok {
+			return done, nil
+		}
+	}
 	sl := reflect.MakeSlice(destTyp, v.Len(), v.Len())
+	if k == reflect.Slice {
+		if seen == nil {
+			seen = _conversions{}
+		}
+		seen[key] = sl
+	}
 	var itemValue reflect.Value
 	for i := 0; i < v.Len(); i++ {
 		item := v.Index(i).Interface()
@@ -522,7 +554,7 @@ func ConvertSliceValueType(destTyp reflect.Type, v reflect.Value) (reflect.Value
 		case elemUintType:
 			sl.Index(i).SetUint(EnsureUint64(itemValue.Interface()))
 		default:
-			SetValue(sl.Index(i), itemValue)
+			setValue(sl.Index(i), itemValue, seen)
 		}
 	}
 
@@ -551,6 +583,10 @@ func findField(name string, typ reflect.Type) (int, error) {
 // It will auto check the Ptr pack level and unpack/pack to the right level.
 // It make sure success to set value
 func SetValue(dest, v reflect.Value) {
+	setValue(dest, v, nil)
+}
+
+func setValue(dest, v reflect.Value, seen _conversions) {
 	// check whether the v is a ref holder
 	if v.IsValid() {
 		if h, ok := v.Interface().(*_refHolder); ok {
@@ -630,7 +666,7 @@ func SetValue(dest, v reflect.Value) {
 		// a list whose registered Go type is not the one wanted here ([]*T for []T: both travel as "[T"), or
 		// an untyped list: convert element by element
 		if v.Kind() == reflect.Slice {
-			if sl, err := ConvertSliceValueType(dest.Type(), v); err == nil {
+			if sl, err := convertSlice(dest.Type(), v, seen); err == nil {
 				if sl.IsValid() {
 					dest.Set(sl)
 				}
@@ -641,9 +677,18 @@ func SetValue(dest, v reflect.Value) {
 		// a map that travelled untyped (a list element, a map value) arrives as map[interface{}]interface{}:
 		// give its entries the key and value types of the Go map it is assigned to
 		if v.Kind() == reflect.Map {
+			ck := _convKey{addr: v.Pointer(), typ: dest.Type()}
+			if done, ok := seen[ck]; ok {
+				dest.Set(done)
+				return
+			}
+			if seen == nil {
+				seen = _conversions{}
+			}
 			m := reflect.MakeMap(dest.Type())
+			seen[ck] = m
 			for _, key := range v.MapKeys() {
-				m.SetMapIndex(convertTo(dest.Type().Key(), unpackInterface(key)), convertTo(dest.Type().Elem(), unpackInterface(v.MapIndex(key))))
+				m.SetMapIndex(convertToSeen(dest.Type().Key(), unpackInterface(key), seen), convertToSeen(dest.Type().Elem(), unpackInterface(v.MapIndex(key)), seen))
 			}
 			dest.Set(m)
 			return
